@@ -23,6 +23,13 @@ probabilities, branch states normalised and physical), PostSelectPhotons for eve
 one further gate after the measurement inside the same program (mode remapping), and Gaussian homodyne / heterodyne / general-dyne
 conditional states on every ordered proper mode subset for a lattice of outcomes obtained by owning Config.rng.
 
+d = 3 general-dyne box (fam "gd3", both tiers): the BFS boxes of the quick tier produce Gaussian conditional states only below states at depth
+<= 1 from product / weakly correlated roots, where the way the per-mode detection covariances of SEVERAL measured modes are assembled cannot show.
+This box prepares three histories that entangle all three modes (mc.c08_lib.gd3_histories), and applies every measurement of
+mc.c08_lib.gd3_measurements (homodyne angle x detector squeezing lattice, anisotropic / tilted / noisy / isotropic general-dyne covariances,
+heterodyne) to EVERY ordered tuple of one or two modes, for every hbar and for Config(validate=True) and Config(validate=False); all invariants
+are evaluated on every conditional state (InvalidState raised by the library on these valid programs is reported as `invalid_state_raised`).
+
 Exceptions are not this property's subject: refusals / unsupported cells / crashes are counted, never reported.
 """
 
@@ -34,6 +41,7 @@ MAX_RECORDED_PER_SIG = 2
 SIM_CLASS = {"gaussian": "GaussianSimulator", "purefock": "PureFockSimulator", "fock": "FockSimulator", "passive": "PassiveSimulator",
              "fgauss": "fermionic.GaussianSimulator", "ffock": "fermionic.PureFockSimulator"}
 HBARS = (0.5, 1.0, 2.0, 3.7)
+GD3_HISTORIES = ("sq3bs2", "sq3bs2s2", "th_s2bs")  # mc.c08_lib.gd3_histories
 
 
 # ---------------------------------------------------------------------------------------
@@ -80,6 +88,10 @@ def _boxes(tier):
         for d in (1, 2):
             box(fam="fermi", d=d, depth=2, meas=1)
         box(fam="fermi", d=3, depth=1, meas=1)
+        for h in HBARS:
+            for v in (True, False):
+                for hn in GD3_HISTORIES:
+                    box(fam="gd3", kind="gaussian", d=3, cutoff=2, hbar=h, validate=v, hist=hn)
     else:
         for i, h in enumerate(HBARS):
             for c in (1, 2, 3, 4, 5):
@@ -112,6 +124,10 @@ def _boxes(tier):
             box(fam="fermi", d=d, depth=3 if d <= 2 else 2, meas=2 if d <= 2 else 1)
         box(fam="fermi", d=4, depth=1, meas=1)
         box(fam="fermi", d=5, depth=1, meas=0)
+        for h in HBARS:
+            for v in (True, False):
+                for hn in GD3_HISTORIES:
+                    box(fam="gd3", kind="gaussian", d=3, cutoff=3, hbar=h, validate=v, hist=hn, level="thorough")
     return B
 
 
@@ -140,6 +156,10 @@ def _items(tier, seed):
                     it = dict(bx)
                     it.update(root=rn, chunk=ch, bi=bi)
                     items.append(it)
+        elif bx["fam"] == "gd3":
+            it = dict(bx)
+            it.update(bi=bi)
+            items.append(it)
         elif bx["fam"] == "passive_loss":
             for oi in range(_n_passive_occs(bx["d"])):
                 it = dict(bx)
@@ -180,6 +200,8 @@ def _cost(it):
         return (n ** it["depth"]) / it["chunks"] * (1 + 0.05 * dim) + 200 * dim * it.get("meas", 0)
     if it["fam"] == "fermi":
         return 40 ** it["depth"] * it["d"]
+    if it["fam"] == "gd3":
+        return 2500
     return 3000
 
 
@@ -199,7 +221,7 @@ def run(ctx, builddir):
         for t in toks:
             if t in ("gaussian", "purefock", "fock", "passive"):
                 items = [it for it in items if it.get("kind") == t]
-            elif t in ("passive_loss", "fermi", "bfs"):
+            elif t in ("passive_loss", "fermi", "bfs", "gd3"):
                 items = [it for it in items if it["fam"] == t]
             elif t.startswith("d"):
                 items = [it for it in items if it["d"] == int(t[1:])]
@@ -207,7 +229,8 @@ def run(ctx, builddir):
                 items = [it for it in items if it.get("cutoff") == int(t[1:])]
             elif t.startswith("D"):
                 for it in items:
-                    it["depth"] = min(it["depth"], int(t[1:]))
+                    if "depth" in it:
+                        it["depth"] = min(it["depth"], int(t[1:]))
         ctx.exhaustive = False
     items.sort(key=lambda it: -_cost(it))
     ctx.rule = (
@@ -216,7 +239,8 @@ def run(ctx, builddir):
         "sequence up to the box depth over the full alphabet (mc.lockstep.alphabet: every gate kind on every ORDERED mode tuple, plus "
         "channels, SNAP, CubicPhase, losses; fermionic: the alphabet of C17 from all 2^d number states); in every new state up to the "
         "box's measurement depth every measurement of the lattice (ordered mode subsets x outcomes / photon counts); a case = one "
-        "state reached by an executed transition or one post-measurement branch state; distinct = canonical hash of the state "
+        "state reached by an executed transition or one post-measurement branch state; d=3 general-dyne box: 3 entangling histories x 4 hbar x validate on/off "
+        "x every ordered 1- and 2-mode tuple x every measurement of the general-dyne lattice x 3 (thorough: 4) lattice outcomes; distinct = canonical hash of the state "
         "(rounded 1e-9) + configuration; every state is non-trivial (all invariants of its class are evaluated on it)"
     )
     ctx.assume("uncertainty relation tested as lambda_min(sigma_xpxp/hbar + i*Omega) >= -1e-9 * max(1, max|sigma|/hbar) with Omega = direct sum of [[0,1],[-1,0]] "
@@ -226,6 +250,10 @@ def run(ctx, builddir):
                "refused -- counted as refused_documented_valid_channel, a C13 matter)")
     ctx.assume("homodyne / heterodyne / general-dyne outcomes: Config.rng of the simulator is replaced by a lattice generator (mean + sqrt(hbar) * "
                "{0, 2.5, -7, 40 e_0} pattern, shots = number of lattice points); the branch frequencies 1/shots are not interpreted")
+    ctx.assume("d=3 general-dyne box (both tiers): from the vacuum / a thermal state, three histories that entangle all three modes (a squeezer on every mode + beamsplitters "
+               "0-1, 1-2; the same + Squeezing2(2,0) + a displacement; thermal + Squeezing2 + beamsplitters), then every measurement of mc.c08_lib.gd3_measurements "
+               "(homodyne angles x detector squeezings, anisotropic / tilted / noisy / isotropic general-dyne covariances, heterodyne) on EVERY ordered tuple of one or "
+               "two modes, for hbar in {0.5, 1, 2, 3.7} and Config(validate=True) as well as Config(validate=False); invariants on every conditional state")
     ctx.assume("purity = 1 and is_pure() are demanded only on histories of unitary gates from a pure root (Gaussian) resp. number-conserving gates from a pure "
                "root (mixed Fock representation, where truncation makes active gates non-unitary); post-measurement states: range only")
     ctx.assume("PassiveState: norm / probability sums are allowed 1e-11 (permanent-based tables), validate() is only demanded on lossless, not "
@@ -243,6 +271,8 @@ def run(ctx, builddir):
                 raise core.HarnessError("HARNESS-VACUOUS C08: fewer than 10 states checked on %s" % k)
         if c.get("branch_states_checked", 0) < 10:
             raise core.HarnessError("HARNESS-VACUOUS C08: no post-measurement branch states were checked")
+        if c.get("gd3/branch_states_2_modes_measured_anisotropic", 0) < 100:
+            raise core.HarnessError("HARNESS-VACUOUS C08: the d=3 general-dyne box checked fewer than 100 conditional states of two-mode anisotropic measurements")
     boxes = {}
     for it in items:
         if it["fam"] == "bfs":
@@ -250,6 +280,8 @@ def run(ctx, builddir):
             boxes.setdefault(k, set()).add(it["root"])
         elif it["fam"] == "fermi":
             boxes.setdefault("fermionic d=%d depth=%d meas<=%d" % (it["d"], it["depth"], it["meas"]), set()).add("".join(map(str, it["root"])))
+        elif it["fam"] == "gd3":
+            boxes.setdefault("gaussian general-dyne d=3 cutoff=%d hbar=%g validate=%s lattice=%s" % (it["cutoff"], it["hbar"], it["validate"], it["level"]), set()).add(it["hist"])
         else:
             boxes.setdefault("passive_loss d=%d levels=%s" % (it["d"], list(it["levels"])), set()).add("c05-roots")
     return {
@@ -304,6 +336,9 @@ class _Rep:
                        "reason": "".join(ch for ch in reason.split(".")[0].lower() if ch.isalpha() or ch == " ").strip().replace(" ", "_")[:60]}
             elif kind == "gaussian":
                 sig["hbar_class"] = "hbar=2" if float(self.base["hbar"]) == 2.0 else "hbar!=2"
+                if case_extra.get("measure") and not case_extra.get("post"):
+                    sig["measurement"] = case_extra["measure"][0]
+                    sig["measured_modes"] = "1" if len(case_extra["measure"][1]) == 1 else ">=2"
             elif type(state).__name__ == "PassiveState":
                 # the defect sits in the probability routine selected by the configuration, not in the last instruction
                 sig.pop("after")
@@ -361,12 +396,15 @@ def _canon(state):
     return h.digest()
 
 
-def _env(kind, d, cutoff, hbar):
+def _env(kind, d, cutoff, hbar, validate=None):
     """simulator with a harness-owned rng"""
+    import piquasso as pq
     from mc import lockstep as L
     from mc import c08_lib as K
 
     sim = L.make_simulator(kind, d, cutoff, hbar)
+    if validate is not None and not validate:
+        sim = type(sim)(d=d, config=pq.Config(cutoff=int(cutoff), hbar=float(hbar), validate=False))
     if kind == "gaussian":
         sim.config.rng = K.LatticeRng(hbar)
     return sim
@@ -565,8 +603,9 @@ def _branches(sim, st, templates, seed, shots):
     return list(res.branches)
 
 
-def _eval_measure(ctx, rep, sim, kind, st, hist_j, t, shots, stats, post=None, collect=None):
-    """execute [measurement (, post gate)] on st and check weights and branch states.  Returns the list of outcomes (None on failure)."""
+def _eval_measure(ctx, rep, sim, kind, st, hist_j, t, shots, stats, post=None, collect=None, full_branches=None):
+    """execute [measurement (, post gate)] on st and check weights and branch states.  Returns the list of outcomes (None on failure).
+    full_branches: None = the probability interfaces of every branch state are evaluated, k = only of the first k branches."""
     import numpy as np
     from mc import lockstep as L
     from mc import c08_lib as K
@@ -606,7 +645,7 @@ def _eval_measure(ctx, rep, sim, kind, st, hist_j, t, shots, stats, post=None, c
         ctx.count("states_checked")
         ctx.count("states_checked/" + kind)
         ctx.note_distinct(_canon(b.state) + repr((kind, "branch", rep.base["hbar"], int(getattr(b.state._config, "cutoff", 0)))).encode() if b.state.d else repr(("d0", outcome)))
-        kw = {"full": post is None and b.state.d >= 1, "stats": stats}
+        kw = {"full": post is None and b.state.d >= 1 and (full_branches is None or bi < full_branches), "stats": stats}
         if is_pnm and kind != "passive" and shots is None:
             kw["relax"] = 1.0 / max(min(1.0, float(b.frequency)), 1e-8)
         if post is None:
@@ -653,6 +692,72 @@ def _post_gates(ctx, rep, sim, kind, st, hist_j, t, it, stats):
             continue
         post = (a[0], tuple(rest[m] for m in a[1]), a[2])
         _eval_measure(ctx, rep, sim, kind, st, hist_j, t, None, stats, post=post, collect=norms)
+
+
+# ---------------------------------------------------------------------------------------
+# d = 3 Gaussian general-dyne box: entangled three-mode states, every ordered one- and two-mode measurement
+
+
+def _work_gd3(ctx, it):
+    from mc import core
+    from mc import c08_lib as K
+
+    kind, d, cutoff, hbar, seed = "gaussian", 3, it["cutoff"], it["hbar"], ctx.seed
+    root_name, hist = K.gd3_histories(seed)[it["hist"]]
+    sim = _env(kind, d, cutoff, hbar, it["validate"])
+    if bool(sim.config.validate) != bool(it["validate"]):
+        raise core.HarnessError("C08 gd3: Config.validate of the simulator is %r, wanted %r" % (sim.config.validate, it["validate"]))
+    root_t, root_pure = _root(kind, d, cutoff, seed, root_name)
+    base = {"fam": "bfs", "kind": kind, "d": d, "cutoff": cutoff, "hbar": hbar, "seed": seed, "root": root_name, "level": it["level"], "validate": bool(it["validate"])}
+    rep = _Rep(ctx, base)
+    stats = {}
+    st = K.execute(sim, None, root_t, seed).state
+    flags = (True, True)
+    done = ()
+    for t in hist:
+        child = K.try_step(sim, st, t, seed)
+        ctx.count("transitions")
+        if not isinstance(child, sim._state_class):
+            raise core.HarnessError("C08 gd3: the history step %s did not return a state: %r" % (K.short(t), child))
+        flags = _flags_after(flags, t[0])
+        f = K.state_findings(child, pure_expected=_pure_expected(kind, child, root_pure, flags), full=False, stats=stats)
+        ctx.count("states_checked")
+        ctx.count("states_checked/" + kind)
+        rep.report(f, child, t[0], {"history": [K.tjson(x) for x in done], "action": K.tjson(t)})
+        if f:
+            return
+        st, done = child, done + (t,)
+    ctx.counters["max_depth"] = max(ctx.counters.get("max_depth", 0), len(hist))
+    ctx.note_distinct(_canon(st) + repr((kind, d, cutoff, hbar, "gd3")).encode())
+    # the three modes must really be entangled / correlated pairwise: otherwise the box would be vacuous
+    import numpy as np
+
+    cov = np.asarray(st.xpxp_covariance_matrix) / hbar
+    for a, b in ((0, 1), (0, 2), (1, 2)):
+        if np.abs(cov[2 * a:2 * a + 2, 2 * b:2 * b + 2]).max() < 0.05:
+            raise core.HarnessError("HARNESS-VACUOUS C08 gd3: modes %d and %d of history %s are (almost) uncorrelated" % (a, b, it["hist"]))
+    hist_j = [K.tjson(t) for t in done]
+    shots = len(K.LatticeRng.OFFSETS) if it["level"] == "thorough" else 3
+    for M in K.ordered_subsets(d, 1, d - 1):
+        for cls, params in K.gd3_measurements(it["level"]):
+            t = (cls, M, params)
+            ctx.count("measurement_trees")
+            n0 = ctx.counters.get("branch_states_checked", 0)
+            # the reported probabilities of a conditional state: on the first lattice outcome, in the validate=False runs (the validate=True runs
+            # execute the same mathematics and add the library's own validation of the conditional state)
+            _eval_measure(ctx, rep, sim, kind, st, hist_j, t, shots, stats, full_branches=0 if it["validate"] else 1)
+            iso = cls == "HeterodyneMeasurement" or (cls == "GeneraldyneMeasurement" and params["detection_covariance"][0][0] == params["detection_covariance"][1][1]
+                                                     and params["detection_covariance"][0][1] == 0.0)
+            ctx.count("gd3/branch_states_%d_modes_measured_%s" % (len(M), "isotropic" if iso else "anisotropic"), ctx.counters.get("branch_states_checked", 0) - n0)
+    if len(ctx.samples) < ctx.max_samples and it["hist"] == "sq3bs2s2" and not it["validate"]:
+        ctx.sample({"simulator": SIM_CLASS[kind], "box": "gd3", "d": d, "hbar": hbar, "validate": False, "root": root_name, "history": [K.short(t) for t in done],
+                    "measured": "every ordered 1- and 2-mode tuple x %d measurements x %d outcomes" % (len(K.gd3_measurements(it["level"])), shots)})
+    for k, v in stats.items():
+        kk = ("max_" if k.startswith("max_") else "") + "stat/gd3/%s" % k
+        if k.startswith("min_"):
+            ctx.extra["max_neg_" + kk] = max(ctx.extra.get("max_neg_" + kk, 0.0), -v)
+        elif k.startswith("max_"):
+            ctx.extra[kk] = max(ctx.extra.get(kk, -1.0), v)
 
 
 # ---------------------------------------------------------------------------------------
@@ -853,6 +958,8 @@ def _work(ctx, item):
         _work_bfs(ctx, item)
     elif item["fam"] == "passive_loss":
         _work_passive_loss(ctx, item)
+    elif item["fam"] == "gd3":
+        _work_gd3(ctx, item)
     else:
         _work_fermi(ctx, item)
 
@@ -868,6 +975,8 @@ def _replay_case(ctx, case):
     seed = case.get("seed", ctx.seed)
     ctx.seed = seed
     base = {k: case.get(k) for k in ("fam", "kind", "d", "cutoff", "hbar", "seed", "root", "level", "tier")}
+    if case.get("validate") is not None:
+        base["validate"] = bool(case["validate"])
     rep = _Rep(ctx, base, replaying=True)
     if fam == "passive_loss":
         from mc.checks import c05
@@ -910,7 +1019,7 @@ def _replay_case(ctx, case):
             rep.report([("invalid_state_raised", "execute_instructions", "the instruction raised InvalidState: %s" % str(err[1]).split("\n")[0][:160])], st, c17.CLS[a["g"]], extra)
         return
     cutoff, hbar = case["cutoff"], case["hbar"]
-    sim = _env(kind, d, cutoff, hbar)
+    sim = _env(kind, d, cutoff, hbar, case.get("validate"))
     root_t, root_pure = _root(kind, d, cutoff, seed, case["root"])
     st = K.execute(sim, None, root_t, seed).state
     flags = (True, True)
